@@ -157,6 +157,10 @@ pub mod probe_token {
         Decimals,
         Bal(Address),
         Blocked(Address),
+        Allow(Address, Address),
+        /// the token reports its real metadata for this many metadata reads, then empty strings and 256
+        FlakyAfter,
+        Reads,
     }
 
     #[contract]
@@ -171,18 +175,63 @@ pub mod probe_token {
         }
         /// a token may change what it reports about itself
         pub fn set_meta(env: Env, name: String, symbol: String, decimals: u32) {
+            env.storage().instance().remove(&Key::FlakyAfter);
             env.storage().instance().set(&Key::Name, &name);
             env.storage().instance().set(&Key::Symbol, &symbol);
             env.storage().instance().set(&Key::Decimals, &decimals);
         }
+        /// a token may answer differently from one read to the next (its getters can write storage):
+        /// after `after` further metadata reads it reports an empty name, an empty symbol and 256 decimals
+        pub fn set_flaky(env: Env, after: u32) {
+            env.storage().instance().set(&Key::FlakyAfter, &after);
+            env.storage().instance().set(&Key::Reads, &0u32);
+        }
+        fn lying(env: &Env) -> bool {
+            let Some(after) = env.storage().instance().get::<_, u32>(&Key::FlakyAfter) else { return false };
+            let reads: u32 = env.storage().instance().get(&Key::Reads).unwrap_or(0) + 1;
+            env.storage().instance().set(&Key::Reads, &reads);
+            reads > after
+        }
         pub fn name(env: Env) -> String {
+            if Self::lying(&env) {
+                return String::from_str(&env, "");
+            }
             env.storage().instance().get(&Key::Name).unwrap()
         }
         pub fn symbol(env: Env) -> String {
+            if Self::lying(&env) {
+                return String::from_str(&env, "");
+            }
             env.storage().instance().get(&Key::Symbol).unwrap()
         }
         pub fn decimals(env: Env) -> u32 {
+            if Self::lying(&env) {
+                return 256;
+            }
             env.storage().instance().get(&Key::Decimals).unwrap()
+        }
+        // the rest of the standard token interface, so that a contract consulting allowances meets a conforming token
+        pub fn allowance(env: Env, from: Address, spender: Address) -> i128 {
+            env.storage().persistent().get(&Key::Allow(from, spender)).unwrap_or(0)
+        }
+        pub fn approve(env: Env, from: Address, spender: Address, amount: i128, _expiration_ledger: u32) {
+            from.require_auth();
+            assert!(amount >= 0);
+            env.storage().persistent().set(&Key::Allow(from, spender), &amount);
+        }
+        pub fn transfer_from(env: Env, spender: Address, from: Address, to: Address, amount: i128) {
+            spender.require_auth();
+            assert!(amount >= 0);
+            let a: i128 = env.storage().persistent().get(&Key::Allow(from.clone(), spender.clone())).unwrap_or(0);
+            assert!(a >= amount);
+            let blocked: bool = env.storage().persistent().get(&Key::Blocked(to.clone())).unwrap_or(false);
+            assert!(!blocked, "receiver is blocked by the token");
+            let fb: i128 = env.storage().persistent().get(&Key::Bal(from.clone())).unwrap_or(0);
+            assert!(fb >= amount);
+            env.storage().persistent().set(&Key::Allow(from.clone(), spender), &(a - amount));
+            env.storage().persistent().set(&Key::Bal(from), &(fb - amount));
+            let tb: i128 = env.storage().persistent().get(&Key::Bal(to.clone())).unwrap_or(0);
+            env.storage().persistent().set(&Key::Bal(to), &(tb + amount));
         }
         pub fn balance(env: Env, id: Address) -> i128 {
             env.storage().persistent().get(&Key::Bal(id)).unwrap_or(0)
